@@ -91,6 +91,15 @@ func c06Ops() []c06Op {
 		c06Op{"FromFormat(name with two blanks)", func(m *mail.Msg) error { return m.FromFormat("Doe,  John", "a4@x.example") }, set("From", na{"Doe,  John", "a4@x.example"})},
 		c06Op{"ReplyToFormat(name with TAB)", func(m *mail.Msg) error { return m.ReplyToFormat("Support\tDesk", "a5@x.example") }, set("Reply-To", na{"Support\tDesk", "a5@x.example"})},
 	)
+	// Reset() in the middle of a sequence (a Msg re-used for the next mail): every address list starts empty again
+	ops = append(ops,
+		c06Op{"Reset()", func(m *mail.Msg) error { m.Reset(); return nil }, func(ref map[string][]na) bool {
+			for h := range ref {
+				delete(ref, h)
+			}
+			return true
+		}},
+	)
 	// renderings and a send in the middle of the sequence: they must not change what later calls mean
 	ops = append(ops,
 		c06Op{"(render)", func(m *mail.Msg) error { var b bytes.Buffer; _, err := m.WriteTo(&b); return err }, func(ref map[string][]na) bool { return true }},
